@@ -1,10 +1,115 @@
 import MazeVerif.DriverOps.Util
+import MazeVerif.Model.Cfg
 namespace MZ.Drv.C18
-open Lean MZ.Drv
+open Lean MZ.Drv MZ.Cfg
 
-/-- driver ops of property C18 (`"op": "C18.<name>"`) -/
-def handle (op : String) (_j : Json) : R Json := do
+/-! wire format of Python values: null | true/false | integer | {"f": repr} | "str" | {"l":[…]} | {"t":[…]} | {"d":[[k,v],…]} -/
+
+partial def decPy (j : Json) : R Py := do
+  match j with
+  | .null => pure .none
+  | .bool b => pure (.bool b)
+  | .str s => pure (.str s)
+  | .num _ => pure (.int (← j.getInt?))
+  | .obj _ =>
+    if let some v := optFld j "f" then pure (.float (← v.getStr?))
+    else if let .ok v := j.getObjVal? "l" then pure (.list (← (← v.getArr?).toList.mapM decPy))
+    else if let .ok v := j.getObjVal? "t" then pure (.tuple (← (← v.getArr?).toList.mapM decPy))
+    else if let .ok v := j.getObjVal? "d" then pure (.dict (← decKV v))
+    else throw "py: unknown object tag"
+  | .arr _ => throw "py: bare array"
+where
+  decKV (v : Json) : R (List (String × Py)) := do
+    (← v.getArr?).toList.mapM fun e => do
+      match (← e.getArr?).toList with
+      | [k, x] => pure ((← k.getStr?), (← decPy x))
+      | _ => throw "py: dict entry"
+
+partial def encPy : Py → Json
+  | .none => .null
+  | .bool b => .bool b
+  | .int n => jInt n
+  | .float r => obj [("f", .str r)]
+  | .str s => .str s
+  | .list l => obj [("l", Json.arr (l.map encPy).toArray)]
+  | .tuple l => obj [("t", Json.arr (l.map encPy).toArray)]
+  | .dict kv => obj [("d", Json.arr (kv.map fun p => Json.arr #[.str p.1, encPy p.2]).toArray)]
+
+def decKVs (j : Json) : R (List (String × Py)) := decPy.decKV j
+
+def decEp (j : Json) : R EpVal := do
+  match j with
+  | .null => pure .none
+  | _ =>
+    if let .ok b := j.getObjVal? "b" then pure (.bool (← b.getBool?))
+    else if let .ok c := j.getObjVal? "c" then
+      pure (.coords (← (← c.getArr?).toList.mapM fun t => do (← t.getArr?).toList.mapM decPy))
+    else throw "ep: unknown"
+
+def encEp : EpVal → Json
+  | .none => .null
+  | .bool b => obj [("b", .bool b)]
+  | .coords l => obj [("c", Json.arr (l.map fun t => Json.arr (t.map encPy).toArray).toArray)]
+
+def decFilter (j : Json) : R Filter := do
+  pure ⟨← decPy (← fld j "name"), ← (← getArr j "args").mapM decPy, ← decKVs (← fld j "kwargs")⟩
+
+def encKVs (kv : List (String × Py)) : Json := Json.arr (kv.map fun p => Json.arr #[.str p.1, encPy p.2]).toArray
+
+def encFilter (f : Filter) : Json := obj [("name", encPy f.name), ("args", Json.arr (f.args.map encPy).toArray), ("kwargs", encKVs f.kwargs)]
+
+def decCfg (j : Json) : R Cfg := do
+  let eps ← (← getArr j "endpoint_kwargs").mapM fun e => do
+    match (← e.getArr?).toList with
+    | [k, v] => pure ((← k.getStr?), (← decEp v))
+    | _ => throw "cfg: endpoint entry"
+  pure { name := ← getStr j "name", seqLenMin := ← getInt j "seq_len_min", seqLenMax := ← getInt j "seq_len_max",
+         seed := ← getInt j "seed", appliedFilters := ← (← getArr j "applied_filters").mapM decFilter,
+         gridN := ← getInt j "grid_n", nMazes := ← getInt j "n_mazes", mazeCtor := ← getStr j "maze_ctor",
+         mazeCtorKwargs := ← decKVs (← fld j "maze_ctor_kwargs"), endpointKwargs := eps }
+
+def encCfg (c : Cfg) : Json :=
+  obj [("name", .str c.name), ("seq_len_min", jInt c.seqLenMin), ("seq_len_max", jInt c.seqLenMax), ("seed", jInt c.seed),
+       ("applied_filters", Json.arr (c.appliedFilters.map encFilter).toArray), ("grid_n", jInt c.gridN), ("n_mazes", jInt c.nMazes),
+       ("maze_ctor", .str c.mazeCtor), ("maze_ctor_kwargs", encKVs c.mazeCtorKwargs),
+       ("endpoint_kwargs", Json.arr (c.endpointKwargs.map fun p => Json.arr #[.str p.1, encEp p.2]).toArray)]
+
+def errName : Err → String
+  | .ValueError => "ValueError" | .AssertionError => "AssertionError" | .KeyError => "KeyError" | .TypeError => "TypeError"
+  | .Nondet => "Nondet"
+
+def encLoad (r : Except Err Cfg) : Json :=
+  match r with
+  | .ok c => obj [("ok", true), ("cfg", encCfg c)]
+  | .error e => obj [("ok", false), ("err", .str (errName e))]
+
+/-- ops:
+  `C18.roundtrip` {cfg, info:[[k,py]]} → {ser, ser_json, load, load_json, native, wf}
+  `C18.load` {data: py} → {ok, cfg | err}
+  `C18.fname` {cfg, shorten, hash (decimal string)} → {fname, hash_mod}
+  `C18.fname_collection` {name, n, shorten, hash} → {fname} -/
+def handle (op : String) (j : Json) : R Json := do
+  let gens := MZ.Gen.generatorsMap
   match op with
+  | "C18.roundtrip" =>
+    let c ← decCfg (← fld j "cfg")
+    let infoKV ← decKVs (← fld j "info")
+    let info : String → List (String × Py) := fun _ => infoKV
+    let ser := serializeCfg info c
+    pure <| obj [("ser", encPy ser), ("ser_json", encPy (toJson ser)), ("load", encLoad (loadCfg gens ser)),
+                 ("load_json", encLoad (loadCfg gens (toJson ser))), ("native", .bool (jsonNative c)),
+                 ("wf", .bool (decide (c.seqLenMin ≤ c.seqLenMax) && (lookupGen gens c.mazeCtor == some c.mazeCtor)))]
+  | "C18.load" =>
+    pure <| encLoad (loadCfg gens (← decPy (← fld j "data")))
+  | "C18.fname" =>
+    let c ← decCfg (← fld j "cfg")
+    let sh ← getStr j "shorten"
+    let some h := (← getStr j "hash").toNat? | throw "hash: not a natural number"
+    pure <| obj [("fname", .str (String.ofList (toFname Char.isAlphanum (fun _ => sh.toList) h c))), ("hash_mod", jNat (h % 10 ^ 5))]
+  | "C18.fname_collection" =>
+    let sh ← getStr j "shorten"
+    let some h := (← getStr j "hash").toNat? | throw "hash: not a natural number"
+    pure <| obj [("fname", .str (String.ofList (toFnameCollection Char.isAlphanum (fun _ => sh.toList) h (← getStr j "name") (← getInt j "n"))))]
   | _ => throw s!"unknown op {op}"
 
 end MZ.Drv.C18
